@@ -176,15 +176,15 @@ def concretise(ctx, behs):
 
 
 def run_replay(ctx, exe, insts, tag):
-    """-> {id: result line}; a crash of the real code is reported for the behaviour it happened in and
-    the rest is resumed in a new process."""
+    """-> ({id: result line}, [crash records]).  A crash of the real code is recorded for the behaviour
+    it happened in and the rest is resumed in a new process (at most 3 times).  Thread-safe: does not
+    touch ctx verdicts."""
     res = {}
+    crashes = []
     todo = list(insts)
     rounds = 0
     while todo:
         rounds += 1
-        if rounds > 20:
-            raise Broken("replay harness keeps crashing")
         path = ctx.rundir.file("beh-%s-%d.ndjson" % (tag, rounds))
         with open(path, "w") as f:
             for b in todo:
@@ -201,15 +201,16 @@ def run_replay(ctx, exe, insts, tag):
             bad = todo[len(got)] if len(got) < len(todo) else None
             if bad is None:
                 raise Broken("replay harness failed after the last behaviour rc=%s: %s" % (r.rc, r.err[-1500:]))
-            if "c10_context.cc" in r.err and "/repo/" not in r.err and "opentelemetry" not in r.err:
-                raise Broken("the harness itself crashed: %s" % r.err[-2500:])
-            ctx.violation("real code crashed (rc=%s) while replaying a TLC behaviour (src=%s): %s" % (
-                r.rc, bad["src"], _first_error(r.err)), {"kind": "replay", "behaviour": bad, "stderr": r.err[-4000:]})
+            crashes.append({"behaviour": bad, "rc": r.rc, "stderr": r.err[-4000:], "first": _first_error(r.err)})
             res[bad["id"]] = {"beh": bad["id"], "ok": False, "crash": True}
             todo = todo[len(got) + 1:]
+            if len(crashes) >= 3:
+                for b in todo:
+                    res[b["id"]] = {"beh": b["id"], "ok": True, "skipped": True}
+                break
         else:
             raise Broken("replay harness: %d results for %d behaviours" % (len(got), len(todo)))
-    return res
+    return res, crashes
 
 
 def _first_error(err):
@@ -222,9 +223,15 @@ def _first_error(err):
 def replay_all(ctx, exe, insts):
     parts = [insts[i::4] for i in range(4)]
     results = {}
-    for r in _par([(run_replay, ctx, exe, p, "p%d" % i) for i, p in enumerate(parts) if p], 4):
+    crashes = []
+    for r, c in _par([(run_replay, ctx, exe, p, "p%d" % i) for i, p in enumerate(parts) if p], 4):
         results.update(r)
+        crashes += c
     by_id = {b["id"]: b for b in insts}
+    for c in crashes[:3]:
+        bad = c["behaviour"]
+        ctx.violation("real code crashed (rc=%s) while replaying a TLC behaviour (src=%s): %s" % (c["rc"], bad["src"], c["first"]),
+                      {"kind": "replay", "behaviour": bad, "stderr": c["stderr"]})
     ops = {}
     checks = 0
     nbad = 0
@@ -244,9 +251,10 @@ def replay_all(ctx, exe, insts):
                     {"kind": "replay", "behaviour": dict(b, steps=b["steps"][:g["step"] + 1]), "mismatch": g})
     if len(results) != len(insts):
         raise Broken("replay: %d results for %d behaviours" % (len(results), len(insts)))
-    ctx.traces += len(results)
-    ctx.evaluations += len(results)
-    ctx.extra["behaviours_replayed"] = len(results)
+    done = len([g for g in results.values() if not g.get("skipped")])
+    ctx.traces += done
+    ctx.evaluations += done
+    ctx.extra["behaviours_replayed"] = done
     ctx.extra["replay_comparisons"] = checks
     ctx.extra["replay_op_counts"] = ops
     ctx.extra["replay_max_steps"] = max(len(b["steps"]) for b in insts)
@@ -345,12 +353,13 @@ def record_validate(ctx, exe):
         for k, v in st.items():
             agg[k] = agg.get(k, 0) + v
     ctx.extra["executions_showing_condition"] = agg
-    for rj in res["rejected"]:
+    ctx.extra["executions_rejected"] = len(res["rejected"])
+    for rj in res["rejected"][:3]:
         ev, at = rj["events"], rj["at"]
         ctx.violation("ContextTrace.tla rejects a real concurrent execution at event %d: %s" % (
             at, json.dumps(ev[at]) if at < len(ev) else "?"),
             {"kind": "trace", "events": ev[:at + 1], "at": at})
-    if not res["rejected"]:
+    if not ctx.violations:      # (a violation already explains missing coverage)
         for need in ("deep", "ooo_deep", "dup_ooo", "foreign", "foreign_xthread", "scope_ooo", "shadow"):
             if agg.get(need, 0) == 0:
                 raise Broken("vacuity: no recorded execution shows condition %r" % need)
@@ -391,9 +400,12 @@ def replay(ctx, path):
     exe = build.harness("c10_context", ["c10_context.cc"], "asan", need_sdk=False)
     if rep.get("kind") == "replay":
         b = dict(rep["behaviour"], id=0)
-        res = run_replay(ctx, exe, [b], "re")
+        res, crashes = run_replay(ctx, exe, [b], "re")
         g = res.get(0, {})
         ctx.traces += 1
+        for c in crashes:
+            ctx.violation("real code crashed (rc=%s) while replaying the behaviour: %s" % (c["rc"], c["first"]),
+                          {"kind": "replay", "behaviour": b, "stderr": c["stderr"]})
         if not g.get("ok") and not g.get("crash"):
             ctx.violation("replayed behaviour diverges at step %s: %s: expected %s, got %s" % (
                 g.get("step"), g.get("what"), json.dumps(g.get("exp")), json.dumps(g.get("got"))),
